@@ -11,6 +11,20 @@ Proof. intros H. unfold wrap64. rewrite Z.mod_small; lia. Qed.
 Lemma wrap64_range z : - 2^63 <= wrap64 z < 2^63.
 Proof. unfold wrap64. pose proof (Z.mod_pos_bound (z + 2^63) (2^64)). lia. Qed.
 
+Lemma blocks_bought_spec a p q : blocks_bought a p = Some q -> q = a / p /\ - 2^63 <= q < 2^63.
+Proof.
+  unfold blocks_bought. destruct ((- 2^63 <=? a / p) && (a / p <? 2^63)) eqn:H; [|discriminate].
+  intros [= <-]. apply andb_true_iff in H as [H1 H2]. apply Z.leb_le in H1. apply Z.ltb_lt in H2. lia.
+Qed.
+
+Lemma expiry_overflows_false from extend : expiry_overflows from extend = false ->
+  from <= 0 \/ from + extend < 2^63.
+Proof.
+  unfold expiry_overflows. intros H. apply andb_false_iff in H as [H|H].
+  - apply Z.ltb_ge in H. by left.
+  - apply Z.ltb_ge in H. right. lia.
+Qed.
+
 (* ---- balances ---- *)
 Lemma getbal_insert b a x y : getbal (<[a:=x]> b) y = if decide (y = a) then x else getbal b y.
 Proof.
@@ -158,6 +172,8 @@ Proof.
   destruct (is_expired d (e_v e)); [discriminate|].
   destruct (negb (bool_decide (d_owner d = a))) eqn:Ho; [discriminate|]. owner_eq Ho.
   destruct (debit (bal s) a price); [|discriminate].
+  destruct (blocks_bought price (o_perblock (e_opts e))); [|discriminate].
+  destruct (expiry_overflows (d_expiry d) z); [discriminate|].
   injection H as <-. simpl. split; [reflexivity|].
   intros n Hn. destruct (decide (n = n0)) as [->|Hne].
   - left. by exists d.
@@ -208,7 +224,9 @@ Proof.
       * unfold owns. simpl. eexists. rewrite lookup_insert. done.
       * intros _. right. exists (parent_name n0). split; [by apply parent_is_sub_of|by exists p].
     + by rewrite lookup_insert_ne in Hn.
-  - injection H as <-. simpl. split; [reflexivity|].
+  - destruct (blocks_bought (price - o_base (e_opts e)) (o_perblock (e_opts e))); [|discriminate].
+    destruct (expiry_overflows (e_v e) z); [discriminate|].
+    injection H as <-. simpl. split; [reflexivity|].
     intros n Hn. destruct (decide (n = n0)) as [->|Hne].
     + repeat split; try done.
       * unfold owns. simpl. eexists. rewrite lookup_insert. done.
@@ -236,6 +254,8 @@ Proof.
     destruct (negb (q <=? offer)) eqn:Hqo; [discriminate|].
     apply negb_false_iff, Z.leb_le in Hqo.
     destruct (debit (bal s) buyer q) as [b1|] eqn:Hb1; [|discriminate].
+    destruct (blocks_bought (offer - q) (o_perblock (e_opts e))) as [ext|]; [|discriminate].
+    destruct (expiry_overflows _ ext); [discriminate|].
     destruct (debit (credit b1 (d_owner d) q) buyer (offer - q)) as [b3|] eqn:Hb3; [|discriminate].
     injection H as <-. simpl. split; [reflexivity|]. split.
     + exists d. split; [done|]. left. split; [done|]. exists q. repeat split; try done.
@@ -245,6 +265,8 @@ Proof.
       destruct (decide (x = buyer)), (decide (x = d_owner d)); lia.
     + eapply Hreg; eauto.
   - destruct (offer <? o_base (e_opts e)) eqn:Hob; [discriminate|]. apply Z.ltb_ge in Hob.
+    destruct (blocks_bought (offer - o_base (e_opts e)) (o_perblock (e_opts e))) as [ext|]; [|discriminate].
+    destruct (expiry_overflows _ ext); [discriminate|].
     destruct (debit (bal s) buyer offer) as [b3|] eqn:Hb3; [|discriminate].
     injection H as <-. simpl. split; [reflexivity|]. split.
     + exists d. split; [done|]. right. split; [done|].
@@ -398,7 +420,8 @@ Lemma create_expiry e s a b n uo u price s1 : run_create e s a b n uo u price = 
     (forall x, getbal (bal s1) x = getbal (bal s) x - (if decide (x = a) then price else 0)) /\
     if is_sub n
     then exists p, reg s !! parent_name n = Some p /\ d_expiry d = d_expiry p
-    else d_expiry d = wrap64 (e_v e + wrap64 ((price - o_base (e_opts e)) / o_perblock (e_opts e))).
+    else exists extend, blocks_bought (price - o_base (e_opts e)) (o_perblock (e_opts e)) = Some extend /\
+           expiry_overflows (e_v e) extend = false /\ d_expiry d = wrap64 (e_v e + extend).
 Proof.
   unfold run_create. intros H.
   destruct (price <=? o_base (e_opts e)) eqn:Hpb; [discriminate|]. apply Z.leb_gt in Hpb.
@@ -411,21 +434,26 @@ Proof.
   - destruct (reg s !! parent_name n) as [p|]; [|discriminate].
     destruct (bool_decide (d_owner p = a)); [|discriminate].
     injection H as <-. simpl. eexists. rewrite lookup_insert. repeat split; try done. by exists p.
-  - injection H as <-. simpl. eexists. rewrite lookup_insert. repeat split; done.
+  - destruct (blocks_bought (price - o_base (e_opts e)) (o_perblock (e_opts e))) as [ext|] eqn:Hbb; [|discriminate].
+    destruct (expiry_overflows (e_v e) ext) eqn:Hov; [discriminate|].
+    injection H as <-. simpl. eexists. rewrite lookup_insert. repeat split; try done. by exists ext.
 Qed.
 
+(* FULL: a paid registration of a top-level name expires exactly the blocks bought after the
+   current version — for ALL amounts (a block count that does not fit is refused, never wrapped) *)
 Theorem create_expiry_exact e s a b n uo u price s1 :
   run_create e s a b n uo u price = Some s1 -> is_sub n = false ->
   0 < o_perblock (e_opts e) -> 0 <= e_v e ->
-  e_v e + (price - o_base (e_opts e)) / o_perblock (e_opts e) < 2^63 ->
   exists d, reg s1 !! n = Some d /\
-    d_expiry d = e_v e + (price - o_base (e_opts e)) / o_perblock (e_opts e).
+    d_expiry d = e_v e + (price - o_base (e_opts e)) / o_perblock (e_opts e) /\
+    e_v e <= d_expiry d.
 Proof.
-  intros H Hs Hpb Hv Hno. apply create_expiry in H as (d & Hd & _ & _ & Hlt & _ & Hexp).
-  rewrite Hs in Hexp. exists d. split; [done|]. rewrite Hexp.
+  intros H Hs Hpb Hv. apply create_expiry in H as (d & Hd & _ & _ & Hlt & _ & Hexp).
+  rewrite Hs in Hexp. destruct Hexp as (ext & Hbb & Hov & Hexp). exists d. split; [done|].
+  apply blocks_bought_spec in Hbb as [-> Hr]. apply expiry_overflows_false in Hov.
   assert (0 <= (price - o_base (e_opts e)) / o_perblock (e_opts e)) by (apply Z.div_pos; lia).
   set (k := (price - o_base (e_opts e)) / o_perblock (e_opts e)) in *.
-  rewrite (wrap64_id k) by lia. apply wrap64_id. lia.
+  rewrite Hexp, wrap64_id by lia. lia.
 Qed.
 
 Theorem create_sub_expiry e s a b n uo u price s1 :
@@ -436,17 +464,18 @@ Proof.
   rewrite Hs in Hexp. destruct Hexp as (p & Hp & He). by exists d, p.
 Qed.
 
+(* FULL: renewal by the owner extends the expiry by exactly price/perBlock blocks, for all
+   amounts; every committed sub-name follows *)
 Theorem renew_expiry_exact e s a n price s1 : run_renew e s a n price = Some s1 ->
-  0 < o_perblock (e_opts e) -> 0 <= e_v e ->
+  0 < o_perblock (e_opts e) ->
   exists d d', reg s !! n = Some d /\ reg s1 !! n = Some d' /\ d_owner d = a /\
-    pool s1 = pool s + price /\
-    (int64 (d_expiry d) -> d_expiry d + price / o_perblock (e_opts e) < 2^63 ->
-     d_expiry d' = d_expiry d + price / o_perblock (e_opts e)) /\
-    (* every committed sub-name follows the parent *)
+    pool s1 = pool s + price /\ e_v e <= d_expiry d /\
+    (int64 (d_expiry d) ->
+     d_expiry d' = d_expiry d + price / o_perblock (e_opts e) /\ d_expiry d <= d_expiry d') /\
     (forall m dm, visited s n m = true -> reg s !! m = Some dm ->
        exists dm', reg s1 !! m = Some dm' /\ d_expiry dm' = d_expiry d').
 Proof.
-  unfold run_renew. intros H Hpb Hv0.
+  unfold run_renew. intros H Hpb.
   destruct (price <=? o_perblock (e_opts e)) eqn:Hpp; [discriminate|]. apply Z.leb_gt in Hpp.
   destruct (is_sub n); [discriminate|].
   destruct (reg s !! n) as [d|] eqn:Hd; [|discriminate].
@@ -455,25 +484,32 @@ Proof.
   unfold is_expired in Hex. apply Z.ltb_ge in Hex.
   destruct (negb (bool_decide (d_owner d = a))) eqn:Ho; [discriminate|]. owner_eq Ho.
   destruct (debit (bal s) a price); [|discriminate].
-  injection H as <-. simpl. eexists d, _. rewrite lookup_insert. repeat split; try done.
-  - simpl. intros Hi Hno. unfold blocks_for.
+  destruct (blocks_bought price (o_perblock (e_opts e))) as [ext|] eqn:Hbb; [|discriminate].
+  destruct (expiry_overflows (d_expiry d) ext) eqn:Hov; [discriminate|].
+  injection H as <-. simpl. eexists d, _. rewrite lookup_insert.
+  do 4 (split; [done|]). split; [lia|]. split.
+  - simpl. intros Hi. apply blocks_bought_spec in Hbb as [-> Hr]. apply expiry_overflows_false in Hov.
     assert (0 <= price / o_perblock (e_opts e)) by (apply Z.div_pos; lia).
-    set (k := price / o_perblock (e_opts e)) in *.
-    unfold int64 in Hi. rewrite (wrap64_id k) by lia. apply wrap64_id. lia.
+    set (k := price / o_perblock (e_opts e)) in *. unfold int64 in Hi.
+    rewrite wrap64_id by lia. lia.
   - intros m dm Hv Hm. assert (m <> n) as Hne.
     { intros ->. apply visited_sub, is_sub_of_ne in Hv. done. }
     rewrite lookup_insert_ne by done. rewrite lookup_map_subs, Hv, Hm. simpl.
     eexists. split; [done|]. done.
 Qed.
 
+(* FULL: a purchase makes the buyer the owner, takes the name off sale, and sets the expiry to
+   max(old expiry, version) + exactly the blocks the part of the offer not paid to the seller
+   (or above the base price) buys — for all amounts; never in the past *)
 Theorem purchase_expiry_exact e s buyer acct n offer s1 :
   run_purchase e s buyer acct n offer = Some s1 -> 0 < o_perblock (e_opts e) -> 0 <= e_v e ->
   exists d d', reg s !! n = Some d /\ reg s1 !! n = Some d' /\ d_owner d' = buyer /\
-    d_onsale d' = false /\ d_active d' = true /\
+    d_onsale d' = false /\ d_price d' = None /\ d_active d' = true /\
     let paid_for_time := if sale_branch e d then offer - default 0 (d_price d)
                          else offer - o_base (e_opts e) in
-    (int64 (d_expiry d) -> Z.max (d_expiry d) (e_v e) + paid_for_time / o_perblock (e_opts e) < 2^63 ->
-     d_expiry d' = Z.max (d_expiry d) (e_v e) + paid_for_time / o_perblock (e_opts e)).
+    (int64 (d_expiry d) ->
+     d_expiry d' = Z.max (d_expiry d) (e_v e) + paid_for_time / o_perblock (e_opts e) /\
+     e_v e <= d_expiry d').
 Proof.
   unfold run_purchase. intros H Hpb Hv.
   destruct (reg s !! n) as [d|] eqn:Hd; [|discriminate].
@@ -486,19 +522,25 @@ Proof.
     destruct (negb (q <=? offer)) eqn:Hqo; [discriminate|].
     apply negb_false_iff, Z.leb_le in Hqo.
     destruct (debit (bal s) buyer q) as [b1|]; [|discriminate].
+    destruct (blocks_bought (offer - q) (o_perblock (e_opts e))) as [ext|] eqn:Hbb; [|discriminate].
+    destruct (expiry_overflows _ ext) eqn:Hov; [discriminate|].
     destruct (debit (credit b1 (d_owner d) q) buyer (offer - q)) as [b3|]; [|discriminate].
-    injection H as <-. simpl. eexists d, _. rewrite lookup_insert. repeat split; try done.
-    rewrite Hsb, Hq. simpl. intros Hi Hno. unfold blocks_for. rewrite Hfrom.
+    injection H as <-. simpl. eexists d, _. rewrite lookup_insert. do 6 (split; [done|]).
+    rewrite Hsb, Hq. simpl. intros Hi. rewrite Hfrom in *.
+    apply blocks_bought_spec in Hbb as [-> Hr]. apply expiry_overflows_false in Hov.
     assert (0 <= (offer - q) / o_perblock (e_opts e)) by (apply Z.div_pos; lia).
-    set (k := (offer - q) / o_perblock (e_opts e)) in *.
-    unfold int64 in Hi. rewrite (wrap64_id k) by lia. apply wrap64_id. lia.
+    set (k := (offer - q) / o_perblock (e_opts e)) in *. unfold int64 in Hi.
+    rewrite wrap64_id by lia. lia.
   - destruct (offer <? o_base (e_opts e)) eqn:Hob; [discriminate|]. apply Z.ltb_ge in Hob.
+    destruct (blocks_bought (offer - o_base (e_opts e)) (o_perblock (e_opts e))) as [ext|] eqn:Hbb; [|discriminate].
+    destruct (expiry_overflows _ ext) eqn:Hov; [discriminate|].
     destruct (debit (bal s) buyer offer) as [b3|]; [|discriminate].
-    injection H as <-. simpl. eexists d, _. rewrite lookup_insert. repeat split; try done.
-    rewrite Hsb. simpl. intros Hi Hno. unfold blocks_for. rewrite Hfrom.
+    injection H as <-. simpl. eexists d, _. rewrite lookup_insert. do 6 (split; [done|]).
+    rewrite Hsb. simpl. intros Hi. rewrite Hfrom in *.
+    apply blocks_bought_spec in Hbb as [-> Hr]. apply expiry_overflows_false in Hov.
     assert (0 <= (offer - o_base (e_opts e)) / o_perblock (e_opts e)) by (apply Z.div_pos; lia).
-    set (k := (offer - o_base (e_opts e)) / o_perblock (e_opts e)) in *.
-    unfold int64 in Hi. rewrite (wrap64_id k) by lia. apply wrap64_id. lia.
+    set (k := (offer - o_base (e_opts e)) / o_perblock (e_opts e)) in *. unfold int64 in Hi.
+    rewrite wrap64_id by lia. lia.
 Qed.
 
 (* ---- sale status: a listing is made only by the owner's own sell transaction ---- *)
@@ -575,6 +617,8 @@ Proof.
     destruct (is_expired d (e_v e)); [discriminate|].
     destruct (negb (bool_decide (d_owner d = a))); [discriminate|].
     destruct (debit (bal s) a p); [|discriminate].
+    destruct (blocks_bought p (o_perblock (e_opts e))); [|discriminate].
+    destruct (expiry_overflows (d_expiry d) z); [discriminate|].
     injection H as <-. simpl in Hn. destruct (decide (n = n0)) as [->|Hne].
     + rewrite lookup_insert in Hn. injection Hn as <-. simpl in Hon. left. by exists d.
     + rewrite lookup_insert_ne in Hn by done. rewrite lookup_map_subs in Hn.
@@ -628,43 +672,4 @@ Proof.
       * left. exists d0. repeat split; congruence.
       * right. left. exists price. rewrite <- Hdo, <- Hdp. by repeat split.
     + destruct (IH _ Hn) as [Hl|Hl]; [by left|by right].
-Qed.
-
-(* ---- the _partial forms, guarded by the boolean triggers of OnsCheck.v ---- *)
-From OL Require Import theories.OnsCheck.
-
-Lemma create_expiry_partial e s a b n uo u price s1 :
-  run_create e s a b n uo u price = Some s1 -> is_sub n = false ->
-  0 < o_perblock (e_opts e) -> 0 <= e_v e -> trig_create_overflow e price = false ->
-  exists d, reg s1 !! n = Some d /\
-    d_expiry d = e_v e + (price - o_base (e_opts e)) / o_perblock (e_opts e).
-Proof.
-  intros H Hs Hpb Hv Ht. eapply create_expiry_exact; eauto.
-  unfold trig_create_overflow in Ht. by apply Z.leb_gt in Ht.
-Qed.
-
-Lemma renew_expiry_partial e s a n price s1 d : run_renew e s a n price = Some s1 ->
-  reg s !! n = Some d -> 0 < o_perblock (e_opts e) -> 0 <= e_v e -> int64 (d_expiry d) ->
-  trig_renew_overflow e d price = false ->
-  exists d', reg s1 !! n = Some d' /\ d_expiry d' = d_expiry d + price / o_perblock (e_opts e).
-Proof.
-  intros H Hd Hpb Hv Hi Ht.
-  destruct (renew_expiry_exact _ _ _ _ _ _ H Hpb Hv) as (d0 & d' & Hd0 & Hd' & _ & _ & Hexp & _).
-  rewrite Hd in Hd0. injection Hd0 as <-. exists d'. split; [done|]. apply Hexp; [done|].
-  unfold trig_renew_overflow in Ht. by apply Z.leb_gt in Ht.
-Qed.
-
-Lemma purchase_expiry_partial e s buyer acct n offer s1 d :
-  run_purchase e s buyer acct n offer = Some s1 -> reg s !! n = Some d ->
-  0 < o_perblock (e_opts e) -> 0 <= e_v e -> int64 (d_expiry d) ->
-  trig_purchase_overflow e d offer = false ->
-  exists d', reg s1 !! n = Some d' /\ d_owner d' = buyer /\
-    d_expiry d' = Z.max (d_expiry d) (e_v e)
-      + (if sale_branch e d then offer - default 0 (d_price d) else offer - o_base (e_opts e))
-        / o_perblock (e_opts e).
-Proof.
-  intros H Hd Hpb Hv Hi Ht.
-  destruct (purchase_expiry_exact _ _ _ _ _ _ _ H Hpb Hv) as (d0 & d' & Hd0 & Hd' & Ho & _ & _ & Hexp).
-  rewrite Hd in Hd0. injection Hd0 as <-. exists d'. repeat split; try done. apply Hexp; [done|].
-  unfold trig_purchase_overflow in Ht. by apply Z.leb_gt in Ht.
 Qed.
